@@ -2799,13 +2799,144 @@ def _native_registry():
     }
 
 
-def run_task(name, scratch, tier, seed, logdir):
+PMF_SUM_NATIVE_TEST = r"""
+    #[test]
+    #[allow(clippy::unnecessary_cast)]
+    fn kv_pmf_rows_sum_to_one() {
+        // C10 needs only this of the pmf: the weights a projected record adds are non-negative and sum to one
+        for (size, successes, draws) in [(2u64, 1u64, 1u64), (6, 2, 4), (10, 1, 6), (20, 7, 10), (40, 13, 20), (64, 32, 32), (66, 30, 33), (80, 40, 40), (120, 60, 40), (170, 60, 20), (171, 60, 20), (180, 90, 170), (200, 100, 10), (400, 150, 30)] {
+            let mut sum = 0.0;
+            for observed in 0..=draws {
+                let w = hypergeometric_pmf(size, successes, draws, observed) as f64;
+                assert!(w >= 0.0 && w.is_finite(), "pmf({size},{successes},{draws},{observed}) = {w}");
+                sum += w;
+            }
+            assert!((sum - 1.0).abs() < 1e-9, "the weights of a record with {successes} ALT among {size} chromosomes projected to {draws} sum to {sum}");
+        }
+    }
+"""
+
+BINOMIAL_NATIVE_TEST = r"""
+    #[test]
+    #[allow(clippy::unnecessary_cast)]
+    fn kv_binomial_against_exact() {
+        // C06 needs only this: pi's denominator binomial(n, 2) (and every other coefficient) is exact
+        fn exact(n: u64, k: u64) -> f64 {
+            if k > n {
+                return 0.0;
+            }
+            let k = k.min(n - k);
+            (1..=k).fold(1.0f64, |acc, i| acc * (n - k + i) as f64 / i as f64)
+        }
+        for n in (0..=260u64).chain([340, 341, 400, 513, 1000]) {
+            for k in (0..=n + 1).filter(|&k| n <= 130 || k <= 6 || k + 3 >= n || k % 7 == 0 || k == n / 2) {
+                let (got, want) = (binomial(n, k) as f64, exact(n, k));
+                assert!((got - want).abs() <= 1e-9 * want.abs().max(1e-300), "binomial({n}, {k}) = {got}, exact {want}");
+            }
+        }
+    }
+"""
+
+HEADER_PANIC_NATIVE_TEST = r"""
+    #[test]
+    fn kv_header_write_never_panics() {
+        // C17 needs only this of the header writer: every header length is written without a panic
+        for k in 1..70usize {
+            for wide in [1usize, 10, 100] {
+                let mut shape = vec![1usize; k];
+                shape[0] = wide;
+                for version in [Version::V1, Version::V2, Version::V3] {
+                    let dict = HeaderDict::new(TypeDescriptor::new(Endian::Little, Type::F8), false, shape.clone());
+                    let mut out = Vec::new();
+                    let _ = Header::new(version, dict).write(&mut out);
+                }
+            }
+        }
+    }
+"""
+
+WRITE_ROUNDTRIP_NATIVE_TEST = r"""
+    #[test]
+    fn kv_written_spectrum_is_read_back() {
+        // C07 / C13 need only this of the write builder: what it writes is the spectrum, in the chosen
+        // format and precision, and the read builder accepts it
+        let values: Vec<f64> = (0..12).map(|i| i as f64 * 1.25 + 0.0625).collect();
+        let scs = crate::Scs::new(values.clone(), crate::array::Shape(vec![3, 4])).unwrap();
+        for (format, precision) in [(Format::Text, 6usize), (Format::Text, 0), (Format::Text, 12), (Format::Npy, 6)] {
+            let mut out = Vec::new();
+            Builder::default().set_format(format).set_precision(precision).write(&mut out, &scs).unwrap();
+            let back = super::text::read_scs(&mut &out[..]).or_else(|_| crate::Array::read_npy(&mut &out[..]).map(crate::Scs::from)).expect("the written spectrum is read back");
+            assert_eq!(back.shape(), scs.shape(), "{format:?}: shape");
+            let tol = if matches!(format, Format::Npy) { 0.0 } else { 0.5 * 10f64.powi(-(precision as i32)) };
+            for (a, b) in back.inner().iter().zip(values.iter()) {
+                assert!((a - b).abs() <= tol, "{format:?} at precision {precision}: wrote {b}, read back {a}");
+            }
+            if matches!(format, Format::Text) {
+                let line = String::from_utf8(out.clone()).unwrap().lines().nth(1).unwrap().to_string();
+                let want = values.iter().map(|x| format!("{x:.precision$}")).collect::<Vec<_>>().join(" ");
+                assert_eq!(line, want, "text at precision {precision}");
+            }
+        }
+    }
+"""
+
+VIEW_PANIC_NATIVE_TEST = r"""
+// generated by /verif (mir2smt replay for C17): `sfs view` with option values that do or do not fit
+// the spectrum ends in success or a diagnosed error, never in a panic
+use std::process::Command;
+
+#[test]
+fn kv_view_never_panics() {
+    let dir = std::env::temp_dir().join(format!("kv_viewp_{}", std::process::id()));
+    std::fs::create_dir_all(&dir).unwrap();
+    for (name, text) in [("a", "#SHAPE=<3/3>\n1 2 3 4 5 6 7 8 9\n"), ("b", "#SHAPE=<1>\n7\n"), ("c", "#SHAPE=<1/3>\n0.25 0.5 0.25\n"), ("d", "#SHAPE=<2/3/2>\n1 2 3 4 5 6 7 8 9 10 11 12\n")] {
+        let input = dir.join(name);
+        std::fs::write(&input, text).unwrap();
+        for opts in [
+            vec![], vec!["-M", "2"], vec!["-M", "0,7"], vec!["-M", "18446744073709551615"], vec!["-M", "1,1"], vec!["-M", "0"], vec!["-m", "5"], vec!["-m", "0,0"],
+            vec!["-m", "0,1"], vec!["-m", "0"], vec!["--project-shape", "9,9"], vec!["--project-shape", "0,0"], vec!["--project-shape", "3"], vec!["--project-shape", "2,2"],
+            vec!["-p", "2,2,2"], vec!["-p", "1"], vec!["--mask-monomorphic"], vec!["--normalize"], vec!["--mask-monomorphic", "--normalize"],
+            vec!["-M", "3", "--mask-monomorphic", "--normalize"], vec!["-m", "0", "--project-shape", "2", "--mask-monomorphic", "--normalize"],
+            vec!["-O", "npy"], vec!["--precision", "0"], vec!["--precision", "40"],
+        ] {
+            let mut a: Vec<String> = vec!["view".into()];
+            a.extend(opts.iter().map(|s| s.to_string()));
+            a.push(input.display().to_string());
+            let out = Command::new(env!("CARGO_BIN_EXE_sfs")).args(&a).env("SFS_ALLOW_STDIN", "1").stdin(std::process::Stdio::null()).output().expect("sfs runs");
+            let stderr = String::from_utf8_lossy(&out.stderr);
+            assert!(matches!(out.status.code(), Some(0) | Some(1)) && !stderr.contains("panicked at"), "sfs {a:?} ended with status {:?}: {stderr}", out.status.code());
+        }
+    }
+    let _ = std::fs::remove_dir_all(&dir);
+}
+"""
+
+
+def _native_by_property():
+    """a task that serves several properties is replayed with the clause of the property being checked:
+    a failing replay must be a violation of THAT property's statement"""
+    return {
+        ("C10", "pmf_wiring"): dict(crate="sfs-core", file="core/src/utils.rs", name="kv_pmf_rows_sum_to_one", code=PMF_SUM_NATIVE_TEST),
+        ("C06", "pmf_wiring"): dict(crate="sfs-core", file="core/src/utils.rs", name="kv_binomial_against_exact", code=BINOMIAL_NATIVE_TEST),
+        ("C17", "header_write_padding"): dict(crate="sfs-core", file="core/src/array/npy/header.rs", name="kv_header_write_never_panics", code=HEADER_PANIC_NATIVE_TEST),
+        ("C07", "write_dispatch_wiring"): dict(crate="sfs-core", file="core/src/spectrum/io/write.rs", name="kv_written_spectrum_is_read_back", code=WRITE_ROUNDTRIP_NATIVE_TEST),
+        ("C13", "write_dispatch_wiring"): dict(crate="sfs-core", file="core/src/spectrum/io/write.rs", name="kv_written_spectrum_is_read_back", code=WRITE_ROUNDTRIP_NATIVE_TEST),
+        ("C17", "view_pipeline"): dict(crate="sfs-cli", file="cli/tests/kv_view_never_panics.rs", name="kv_view_never_panics", code=VIEW_PANIC_NATIVE_TEST, integration=True),
+    }
+
+
+def run_task(name, scratch, tier, seed, logdir, prop=None):
     res = TASKS[name](scratch, tier, seed, logdir)
     # an obligation that did not come out as "holds" (wrong form, unrecognised form, or the translator
     # could not even find the function) and has a native test: the real code decides (see check)
     reg = _native_registry()
+    byprop = _native_by_property()
     for o in res:
-        if o.get("status") != "holds" and "native_test" not in o and o.get("name") in reg:
+        if o.get("status") == "holds":
+            continue
+        if (prop, o.get("name")) in byprop:
+            o["native_test"] = byprop[(prop, o.get("name"))]
+        elif "native_test" not in o and o.get("name") in reg:
             o["native_test"] = reg[o["name"]]
     with open(os.path.join(logdir, f"mtask-{name}.json"), "w") as fh:
         json.dump(res, fh, indent=1, default=str)
